@@ -93,6 +93,17 @@ Theorem C06_rrset_secure_justified :
 Proof. exact default_rrset_justified. Qed.
 Print Assumptions C06_rrset_secure_justified.
 
+(* Since fix 6b7ad4d (RFC 4035 5.3.1): the RRSIG that makes an RRset Secure names, as signer, the
+   owner of the RRset or an ancestor of it -- a key of an unrelated zone never validates it. *)
+Theorem C06_secure_signer_is_zone :
+  forall (Sg : Type) (verify : N -> list byte -> list byte -> Sg -> bool)
+         lookup qname qtype kname ktype rs (sigs : list (sigrr Sg)) now t idx,
+  default_rrset Sg verify lookup qname qtype kname ktype rs sigs now = GOk Secure t idx ->
+  exists j sg, idx = Some j /\ nth_error sigs j = Some sg /\
+               zone_of (s_signer (g_in sg)) kname = true.
+Proof. exact default_rrset_secure_zone. Qed.
+Print Assumptions C06_secure_signer_is_zone.
+
 (* non-vacuity: the witness RRset ab.c.z. A 10.0.0.1, signed by the zone key of z., is Secure at
    clock 500 with TTL 300, and the hypotheses of the three theorems hold for it *)
 Example C06_secure_example :
